@@ -120,7 +120,8 @@ Proof.
       assert (Zpos k = 53 - D p) by lia. rewrite H0.
       replace (2 ^ (53 - 1)) with (2 ^ (D p - 1) * 2 ^ (53 - D p)) by (rewrite <- Z.pow_add_r by lia; f_equal; lia).
       replace (2 ^ 53) with (2 ^ (D p) * 2 ^ (53 - D p)) by (rewrite <- Z.pow_add_r by lia; f_equal; lia).
-      assert (0 < 2 ^ (53 - D p)) by (apply Z.pow_pos_nonneg; lia). nia. }
+      assert (0 < 2 ^ (53 - D p)) by (apply Z.pow_pos_nonneg; lia).
+      split; [apply Z.mul_le_mono_nonneg_r; lia|apply Z.mul_lt_mono_pos_r; lia]. }
     exists (shift_pos k p). rewrite bra_exact by lia. split; auto. rewrite V. f_equal. f_equal. lia.
 Qed.
 
@@ -210,11 +211,11 @@ Proof.
     rewrite E. unfold f2z. destruct (Z.leb_spec 0 e2); [|lia].
     assert (P2 : 0 < 2 ^ (D p - 53)) by (apply Z.pow_pos_nonneg; lia).
     assert (PE : 0 < 2 ^ e2) by (apply Z.pow_pos_nonneg; lia).
-    rewrite cond_Zopp_inj by nia.
+    rewrite cond_Zopp_inj by (try apply Z.mul_pos_pos; lia).
     pose proof (Z.div_mod (Zpos p) (2 ^ (D p - 53)) ltac:(lia)) as DM.
     pose proof (Z.mod_pos_bound (Zpos p) (2 ^ (D p - 53)) P2) as MB.
     split.
-    + intros EQ. apply Z.eqb_eq. destruct V1 as [V|V]; rewrite V in EQ; nia.
+    + intros EQ. apply Z.eqb_eq. destruct V1 as [V|V]; rewrite V in EQ; lia.
     + intros R. apply Z.eqb_eq in R. rewrite (V2 R). rewrite R in DM. lia.
 Qed.
 
